@@ -348,6 +348,32 @@ func checkWrapper(p *an.Prog, r *an.Run, w *ssa.Function) {
 			}
 		}
 	}
+	// completeness: "a correctly signed fresh request is always accepted by the verification step" — the wrapper
+	// refuses only because request.Verify or the nonce store refused. A refusal reachable without either having failed
+	// (a lockout keyed by the claimed identity, a rate limit, a blacklist fed by unauthenticated requests) lets a
+	// stranger shut out the legitimate owner.
+	var failCut []an.Edge
+	for _, c := range an.Calls(w, false) {
+		f := an.CallObj(c)
+		if an.IsFunc(f, pkgRequest, "Verify") || (f != nil && f.Name() == "CheckAndSaveNonce") {
+			failCut = append(failCut, an.ErrEdges(c).Fail...)
+		}
+	}
+	noFail := an.ReachAvoiding(w, an.EdgeSet(failCut))
+	an.AllInstrs(w, func(in ssa.Instruction) {
+		ret, ok := in.(*ssa.Return)
+		if !ok || len(ret.Results) == 0 || !noFail[ret.Block()] || (w.Recover != nil && ret.Block() == w.Recover) {
+			return
+		}
+		rr := an.RetResults(ret)
+		res := rr[len(rr)-1]
+		if c, isC := res.(*ssa.Const); isC && c.IsNil() {
+			return
+		}
+		if definitelyNonNilError(res) {
+			bad = append(bad, "the wrapper refuses at "+p.Pos(ret.Pos())+" although neither request.Verify nor the nonce store has refused: a correctly signed fresh request can be turned away")
+		}
+	})
 	if len(bad) > 0 {
 		r.Fail("wrapper", name, w.Pos(), "%s", strings.Join(bad, "; "))
 	} else {
